@@ -15,6 +15,16 @@ Definition spec_of (k : framing_kind) (n : list (list N)) (fi : fin) : list fram
   | KRtuResponse => ref_rtu_frames Responses s f
   end.
 
+(* resume mode (a reader polled again after framing errors): the Spec exists for the RTU server across port
+   re-opens (ref_rtu_reopen); for MBAP there is none ("-") *)
+Definition spec_reopen (k : framing_kind) (n : list (list N)) (fi : fin) : string :=
+  let '(s, f) := sched_stream n fi in
+  match k with
+  | KTcp => "-"
+  | KRtuRequest => show_run (ref_rtu_reopen Requests s f)
+  | KRtuResponse => show_run (ref_rtu_reopen Responses s f)
+  end.
+
 Definition eval_case (c : framing_kind * bool * fin * list (list N)) : string :=
   let '(k, resume, fi, n) := c in
   show_run (run_session k resume n fi) ++ "|" ++ (if resume then "-" else show_frames (spec_of k n fi)).
@@ -24,7 +34,7 @@ Definition eval_case (c : framing_kind * bool * fin * list (list N)) : string :=
 Definition eval_case_tr (c : framing_kind * bool * fin * list (list N)) : string :=
   let '(k, resume, fi, n) := c in
   let x := run_session_tr k resume n fi in
-  show_run (fst x) ++ "|" ++ (if resume then "-" else show_frames (spec_of k n fi)) ++ "|" ++ show_list show_nat "," (snd x).
+  show_run (fst x) ++ "|" ++ (if resume then spec_reopen k n fi else show_frames (spec_of k n fi)) ++ "|" ++ show_list show_nat "," (snd x).
 
 (* client: several connections over one ClientLoop (reader reset at connect); "c1 / c2 / .." *)
 Definition eval_client (c : list (list (list N) * fin)) : string :=
